@@ -25,7 +25,7 @@ Proof. exact caught_spec. Qed.
 (* Totality: no exception class that any stage of any public check function can raise leaves the function
    (finite check over all sites of the twelve translated functions, callees included; fuel 4 not exhausted):
    every check ends with a report. *)
-Theorem C20_total : forall f, In f public_functions -> escapes functions fuel f = EscOk [].
+Theorem C20_total : forall f, In f public_functions -> escapes functions checker_raises fuel f = EscOk [].
 Proof. exact total. Qed.
 
 (* In particular the comparing step always gets a status: whatever AASDataChecker answers - equal, different,
